@@ -224,9 +224,10 @@ func atoi(s string) int {
 
 // Fact is something that holds at a program point.
 type Fact struct {
-	Kind string  // lt le eq ne T F ok fail isnil nonnil called stored forall
+	Kind string  // lt le eq ne T F ok fail isnil nonnil called stored forall when
 	A    []*Node // operands
-	Sub  *Fact   // for forall
+	Sub  *Fact   // for forall; the consequent of a guarded fact ("when")
+	If   *Fact   // the antecedent of a guarded fact: when(If ⇒ Sub)
 	Via  string  // provenance: "" (local edge) or callee summary it was imported from
 	key  string
 }
@@ -237,6 +238,10 @@ func (f *Fact) Key() string {
 	}
 	if f.Kind == "forall" {
 		f.key = "forall(" + f.Sub.Key() + ")"
+		return f.key
+	}
+	if f.Kind == "when" {
+		f.key = "when(" + f.If.Key() + " => " + f.Sub.Key() + ")"
 		return f.key
 	}
 	var sb []string
@@ -254,6 +259,9 @@ func (f *Fact) Subst(bind []*Node, via string) *Fact {
 	}
 	if f.Sub != nil {
 		nf.Sub = f.Sub.Subst(bind, via)
+	}
+	if f.If != nil {
+		nf.If = f.If.Subst(bind, via)
 	}
 	for _, a := range f.A {
 		nf.A = append(nf.A, a.Subst(bind))
@@ -621,4 +629,29 @@ func sameConstType(a, b string) bool {
 		tb = b[i:]
 	}
 	return ta == tb
+}
+
+// Complement returns the key of the fact that holds exactly when f does not
+// (for the kinds that have one): T/F, isnil/nonnil, eq/ne, lt(a,b)/le(b,a).
+func (f *Fact) Complement() string {
+	arg := func(i int) string { return f.A[i].String() }
+	switch f.Kind {
+	case "T":
+		return "F(" + arg(0) + ")"
+	case "F":
+		return "T(" + arg(0) + ")"
+	case "isnil":
+		return "nonnil(" + arg(0) + ")"
+	case "nonnil":
+		return "isnil(" + arg(0) + ")"
+	case "eq":
+		return "ne(" + arg(0) + ", " + arg(1) + ")"
+	case "ne":
+		return "eq(" + arg(0) + ", " + arg(1) + ")"
+	case "lt":
+		return "le(" + arg(1) + ", " + arg(0) + ")"
+	case "le":
+		return "lt(" + arg(1) + ", " + arg(0) + ")"
+	}
+	return ""
 }
